@@ -37,6 +37,7 @@ type half struct {
 	rclosed bool // reader side closed: writes fail
 	cap     int  // 0 = unbounded
 	total   int  // bytes ever written
+	waiting int  // readers blocked on an empty buffer
 }
 
 func newHalf(capacity int) *half {
@@ -154,6 +155,14 @@ func (c *Conn) Pending() int {
 	return len(c.r.buf)
 }
 
+// ReaderWaiting reports whether a Read on this end is blocked on an empty buffer,
+// i.e. the code behind this end is waiting for the peer's next bytes.
+func (c *Conn) ReaderWaiting() bool {
+	c.r.mu.Lock()
+	defer c.r.mu.Unlock()
+	return c.r.waiting > 0 && len(c.r.buf) == 0
+}
+
 // TotalWritten returns the number of bytes this end has put on the wire.
 func (c *Conn) TotalWritten() int {
 	c.w.mu.Lock()
@@ -222,10 +231,14 @@ func (c *Conn) Read(b []byte) (n int, err error) {
 				return 0, ErrTimeout
 			}
 			t := time.AfterFunc(d, func() { h.mu.Lock(); h.cond.Broadcast(); h.mu.Unlock() })
+			h.waiting++
 			h.cond.Wait()
+			h.waiting--
 			t.Stop()
 		} else {
+			h.waiting++
 			h.cond.Wait()
+			h.waiting--
 		}
 	}
 	n = copy(b[:limit], h.buf)
